@@ -8,7 +8,7 @@ import gen_prog
 ID = "C18"
 PROP_FILE = "props/C18.v"
 COQ_TARGETS = ["props/C18.v", "model/BookHist.v"]
-THEOREMS = ["C18_history_own_keys", "C18_contains", "C18_parent", "C18_parent_exact", "C18_outer_exact", "C18_node", "C18_tables", "C18_history", "C18_remove_after_add_refuted"]
+THEOREMS = ["C18_history_own_keys", "C18_contains", "C18_parent", "C18_parent_exact", "C18_outer_exact", "C18_outer_any_node", "C18_node", "C18_tables", "C18_history", "C18_remove_after_add_refuted"]
 TRUSTED_BASE = [
     "Coq 8.16.1 kernel, vm_compute for the in-coqc correspondence",
     "model/Book.v: hand transcription of BookkeepingVisitor.generic_visit as the ordered list of table writes, tied by K-book",
@@ -47,8 +47,8 @@ def coq_cases_file(shapes, types=None):
          "Definition inl (l : list N) (c : N) : bool := existsb (N.eqb c) l.",
          "Definition one (t : node) (tab : list (N * N)) := let ws := visit None t in",
          "  map (fun n => (nid n, cs_lookup ws (nid n) None, ps_lookup ws (nid n) None, ca_lookup ws (nid n) None,",
-         "                 if nstmt n then [only_allowed_tbl (tyf tab) (inl [1;2;3;4]%N) t (nid n) (length (nodes t)); only_allowed_tbl (tyf tab) (inl [1;2;3;4;5;6;7]%N) t (nid n) (length (nodes t));",
-         "                                  only_allowed_tbl (tyf tab) (inl [1;3;4]%N) t (nid n) (length (nodes t)); only_allowed_tbl (tyf tab) (inl [2;4]%N) t (nid n) (length (nodes t))] else [])) (nodes t)."]
+         "                 [only_allowed_node (tyf tab) (inl [1;2;3;4]%N) t (nid n) (length (nodes t)); only_allowed_node (tyf tab) (inl [1;2;3;4;5;6;7]%N) t (nid n) (length (nodes t));",
+         "                  only_allowed_node (tyf tab) (inl [1;3;4]%N) t (nid n) (length (nodes t)); only_allowed_node (tyf tab) (inl [2;4]%N) t (nid n) (length (nodes t))])) (nodes t)."]
     for k, sh in enumerate(shapes):
         tab = "; ".join("(%d, %d)" % (int(i), TYCODE[ty]) for i, ty in (types[k] if types else []) if ty in TYCODE)
         L.append("Eval vm_compute in one (%s) [%s]%%N." % (coq_shape(sh), tab))
@@ -86,21 +86,23 @@ def oracle_file(f):
             if tb["cs"] is None or tb["cs"] not in lx["anc_or_self_stmts"]:
                 return {"what": "node %s (%s): containing statement is node %s, which does not contain it (enclosing statements: %s)"
                                 % (i, lx["type"], tb["cs"], lx["anc_or_self_stmts"]), "node": i, "kind": "contains:" + lx["type"]}
-        if lx["is_stmt"]:
-            if tb["ps"] != lx["parent_stmt"]:
-                return {"what": "statement %s (%s): parent statement is %s, lexically it is %s" % (i, lx["type"], tb["ps"], lx["parent_stmt"]),
-                        "node": i, "kind": "parent"}
-            want_outer = all(t in OUTER for t in lx["proper_stmt_ancestor_types"])
-            want_init = all(t in INITIAL for t in lx["proper_stmt_ancestor_types"])
-            want_excl_try = all(t in OUTER - {"Try"} for t in lx["proper_stmt_ancestor_types"])
-            want_excl_iw = all(t in OUTER - {"If", "With"} for t in lx["proper_stmt_ancestor_types"])
+        if lx["is_stmt"] and tb["ps"] != lx["parent_stmt"]:
+            return {"what": "statement %s (%s): parent statement is %s, lexically it is %s" % (i, lx["type"], tb["ps"], lx["parent_stmt"]),
+                    "node": i, "kind": "parent"}
+        if lx["is_stmt"] or lx["anc_or_self_stmts"]:
+            # the classification of ANY node inside a statement is that of its statement: the statements strictly above that one decide
+            above = lx["proper_stmt_ancestor_types"] if lx["is_stmt"] else lx["proper_stmt_ancestor_types"][:-1]
+            want_outer = all(t in OUTER for t in above)
+            want_init = all(t in INITIAL for t in above)
+            want_excl_try = all(t in OUTER - {"Try"} for t in above)
+            want_excl_iw = all(t in OUTER - {"If", "With"} for t in above)
             if tb["outer_excl_try"] != want_excl_try or tb["outer_excl_if_with"] != want_excl_iw:
-                return {"what": "statement %s (%s) under %s: is_outer_stmt excluding Try=%s (lexically %s), excluding If/With=%s (lexically %s)"
-                                % (i, lx["type"], lx["proper_stmt_ancestor_types"], tb["outer_excl_try"], want_excl_try, tb["outer_excl_if_with"], want_excl_iw),
+                return {"what": "node %s (%s), statements above its statement %s: is_outer_stmt excluding Try=%s (lexically %s), excluding If/With=%s (lexically %s)"
+                                % (i, lx["type"], above, tb["outer_excl_try"], want_excl_try, tb["outer_excl_if_with"], want_excl_iw),
                         "node": i, "kind": "outer-excl"}
             if tb["outer"] != want_outer or tb["initial_frame"] != want_init:
-                return {"what": "statement %s (%s) under %s: is_outer_stmt=%s (lexically %s), is_initial_frame_stmt=%s (lexically %s)"
-                                % (i, lx["type"], lx["proper_stmt_ancestor_types"], tb["outer"], want_outer, tb["initial_frame"], want_init),
+                return {"what": "node %s (%s), statements above its statement %s: is_outer_stmt=%s (lexically %s), is_initial_frame_stmt=%s (lexically %s)"
+                                % (i, lx["type"], above, tb["outer"], want_outer, tb["initial_frame"], want_init),
                         "node": i, "kind": "outer"}
     return None
 
@@ -135,7 +137,7 @@ def gen_hist_case(rng):
             if rng.random() < 0.5:
                 src = src + "zz_added = %d\n" % rng.randrange(9)  # an edited file: one more line
         else:
-            src = "def fh(p=1):\n    q = p + %d\n    return q\n" % rng.randrange(9) + gen_prog.gen_program(random.Random(rng.random()), "core", nstmts=rng.choice([1, 2, 3]))
+            src = ("async " if rng.random() < 0.3 else "") + "def fh(p=1):\n    q = p + %d\n    return q\n" % rng.randrange(9) + gen_prog.gen_program(random.Random(rng.random()), "core", nstmts=rng.choice([1, 2, 3]))
         versions[path] = src
         ops.append({"path": path, "kind": kind, "src": src})
     return {"ops": ops, "gc": rng.random() < 0.85}
@@ -242,7 +244,7 @@ def run(ctx, model_ok):
                 for (nid, cs, ps, ca, cl) in rows:
                     tb = f["tables"][str(nid)]
                     m = {"cs": optv(cs), "ps": optv(ps), "ca": optv(ca)}
-                    if cl:
+                    if cl and "outer" in tb:
                         m.update({"outer": cl[0], "initial_frame": cl[1], "outer_excl_try": cl[2], "outer_excl_if_with": cl[3]})
                     if m != {k: tb[k] for k in m}:
                         bad = {"case": ci, "file": fi, "node": nid, "type": f["lexical"][str(nid)]["type"], "model": m, "impl": {k: tb[k] for k in m}}
